@@ -272,7 +272,14 @@ impl AsmParser {
             }
         };
 
-        debug_assert!(self.toks.next().is_none(), "expected end of line");
+        // Anything after one complete instruction is an error, not something to ignore
+        if let Some(tok) = self.toks.next() {
+            return Err(error::parse_generic_unexpected(
+                self.src,
+                "end of line",
+                tok,
+            ));
+        }
 
         Ok(stmt)
     }
